@@ -186,7 +186,7 @@ class Spki(Obligation):
             scn2=dict(scn); scn2['der']=[model_value(m,x) for x in g['der']]
             rec['viol']={'kind':'spki_export_differs:'+g['t'],'known_key':key_,'scenario':scn2,'predicted':'export_differs'+('' if reimport else '+not_reimportable'),'what':'importing and re-exporting a standards-conformant SubjectPublicKeyInfo (%s) changes the DER bytes%s'%(g['t'],'' if reimport else ' and the result cannot be imported again')}; return rec
         W('import_export_equal')
-        rec['sample']={'scenario':scn,'expect':'roundtrip_equal'}
+        rec['sample']={'scenario':scn,'expect':'roundtrip_equal' if g['t']!='ed25519_null_params' else 'export_differs'}
         return rec
 
 class KeyTable(Obligation):
